@@ -179,6 +179,9 @@ fn run_q(db: &Arc<LocustDB>, qkind: &str, secs: u64) -> (String, String) {
 fn is_ok(res: &str) -> bool { res.starts_with("ok:") }
 
 fn tmp_root() -> std::path::PathBuf {
+    // children put their databases under a directory of the parent, which removes it at the end (a faulted database is
+    // leaked on purpose — its threads still use the files — so its TempDir is never dropped)
+    if let Ok(d) = std::env::var("C10_TMP") { return std::path::PathBuf::from(d); }
     let shm = std::path::Path::new("/dev/shm");
     if shm.is_dir() { shm.to_path_buf() } else { std::env::temp_dir() }
 }
@@ -656,6 +659,9 @@ fn main() {
     let t0 = Instant::now();
     let thorough = args.thorough();
     if let Some(path) = &args.replay {
+        let run_root = tmp_root().join(format!("c10-run-{}", std::process::id()));
+        std::fs::create_dir_all(&run_root).unwrap();
+        std::env::set_var("C10_TMP", &run_root);
         let line = std::fs::read_to_string(path).ok().and_then(|t| serde_json::from_str::<serde_json::Value>(&t).ok()).and_then(|v| find_model_line(&v)).unwrap_or_default();
         match placement_from_line(&line) {
             Some(p) => for _ in 0..3 { run_placement(&p, &mut cases, true); },
@@ -667,6 +673,7 @@ fn main() {
                 } else { eprintln!("[c10] no replayable model line in {:?}", path); }
             }
         }
+        let _ = std::fs::remove_dir_all(&run_root);
         cases.finish();
         std::process::exit(0);
     }
@@ -777,11 +784,13 @@ fn main() {
     }).collect();
     let jobs: usize = args.rest.iter().position(|a| a == "--jobs").map(|i| args.rest[i + 1].parse().unwrap()).unwrap_or(6);
     let exe = std::env::current_exe().unwrap();
+    let run_root = tmp_root().join(format!("c10-run-{}", std::process::id()));
+    std::fs::create_dir_all(&run_root).unwrap();
     let queue = Arc::new(Mutex::new(selected.clone().into_iter().rev().collect::<Vec<usize>>()));
     let results: Arc<Mutex<BTreeMap<usize, Vec<String>>>> = Arc::new(Mutex::new(BTreeMap::new()));
     let mut workers = vec![];
     for _ in 0..jobs.max(1) {
-        let (queue, results, exe, out, seed, tier, nplan) = (queue.clone(), results.clone(), exe.clone(), args.out.clone(), args.seed, args.tier.clone(), plan.len());
+        let (queue, results, exe, out, seed, tier, nplan, run_root) = (queue.clone(), results.clone(), exe.clone(), args.out.clone(), args.seed, args.tier.clone(), plan.len(), run_root.clone());
         workers.push(std::thread::spawn(move || loop {
             let i = match queue.lock().unwrap().pop() { Some(i) => i, None => return };
             // stress runs are timing sensitive: wait until the placements are through, then run them one at a time
@@ -790,6 +799,7 @@ fn main() {
             let mut cmd = std::process::Command::new(&exe);
             cmd.args(["--seed", &seed.to_string(), "--tier", &tier, "--out", dir.to_str().unwrap(), "--one", &i.to_string()]);
             if verbose { cmd.arg("--verbose"); }
+            cmd.env("C10_TMP", &run_root);
             let mut child = cmd.stdout(std::process::Stdio::null()).spawn().unwrap();
             let t0 = Instant::now();
             let mut finished = false;
@@ -805,6 +815,7 @@ fn main() {
         }));
     }
     for w in workers { let _ = w.join(); }
+    let _ = std::fs::remove_dir_all(&run_root);
     let results = results.lock().unwrap();
     let mut lost = 0;
     for i in &selected {
